@@ -262,7 +262,49 @@ REAL_TREE = [('a', 'f', None), ('b', 'd', None), ('b/a', 'f', None), ('b/c', 'd'
 REAL_NAMES = [p + s for p, _k, _t in REAL_TREE for s in ('', '/')] + ['zz', 'b/zz', 'ab/a', 'ab/c/', 'ab/c', 'b//a', './a', 'b/../a']
 
 
+def degenerate_lists(ctx):
+    """No inclusion pattern at all (an empty list or tuple, a list of empty texts): nothing matches, with or without `exclude=`,
+    whatever NEGATE / NEGATEALL say (an `exclude=` argument switches both off; NEGATEALL needs an inline exclusion to act on)."""
+    names = ['a', 'b', '.a', 'a/b', 'ab', ' ', 'a\n']
+    idx = 0
+    for mod in (F, G):
+        for fl in ((), ('NEGATE',), ('NEGATEALL',), ('NEGATE', 'NEGATEALL'), ('NEGATE', 'NEGATEALL', 'MINUSNEGATE'), ('NEGATE', 'NEGATEALL', 'DOTMATCH'),
+                   ('NEGATEALL', 'SPLIT', 'BRACE'), ('NEGATE', 'NEGATEALL', 'EXTMATCH', 'SPLIT')):
+            for incl in ([], (), [''], ('', '')):
+                for ex in (None, 'b', ['b'], ('b', 'zz*'), '', [], '!b'):
+                    idx += 1
+                    if not ctx.mine(idx):
+                        continue
+                    flags = flags_of(fl)
+                    kw = {} if ex is None else {'exclude': ex}
+                    for as_bytes in (False, True):
+                        if as_bytes and ex is not None and not ex:
+                            continue
+                        c = (lambda x: x.encode() if isinstance(x, str) else type(x)(y.encode() for y in x)) if as_bytes else (lambda x: x)
+                        kwb = {k_: c(v_) for k_, v_ in kw.items()}
+                        with ctx.case(label=('degenerate-list', mod.__name__, fl, repr(incl), repr(ex), as_bytes)):
+                            try:
+                                m = mod.compile(c(incl) if incl else incl, flags=flags, **kwb)
+                                got = [n for n in names if m.match(c(n))]
+                                flt = (mod.filter if mod is F else mod.globfilter)([c(n) for n in names], c(incl) if incl else incl, flags=flags, **kwb)
+                                one = [n for n in names if (mod.fnmatch if mod is F else mod.globmatch)(c(n), c(incl) if incl else incl, flags=flags, **kwb)]
+                                tr_ = mod.translate(c(incl) if incl else incl, flags=flags, **kwb)
+                            except Exception as e:  # noqa: BLE001
+                                ctx.disagree(f'a call without inclusion patterns raised {type(e).__name__}',
+                                             {'module': mod.__name__, 'patterns': repr(incl), 'exclude': repr(ex), 'flags': list(fl), 'bytes': as_bytes})
+                                continue
+                            ctx.evals(3 * len(names))
+                            ctx.count('degenerate_list_checks')
+                            import re as _re
+                            tin = [r_ for r_ in tr_[0] if any(_re.compile(r_).fullmatch(c(n)) for n in names)]
+                            if got or flt or one or tin:
+                                ctx.disagree('a call without any inclusion pattern matches something (or translate returns an inclusion regex)',
+                                             {'module': mod.__name__, 'patterns': repr(incl), 'exclude': repr(ex), 'flags': list(fl), 'bytes': as_bytes,
+                                              'compiled_matches': got, 'filter': [repr(x) for x in flt], 'one_shot': one, 'translate_inclusions': [repr(x) for x in tr_[0]]})
+
+
 def run(ctx):
+    degenerate_lists(ctx)
     from .. import tree as T
     quick = ctx.quick
     k = 0
